@@ -17,7 +17,7 @@ for line in open(spec):
         continue
     th, f, lem, comment = [x.strip() for x in line.split("|", 3)]
     src = open(os.path.join(root, f)).read()
-    m = re.search(r"^(?:Lemma|Theorem|Corollary|Example)\s+" + re.escape(lem) + r"\s*:(.*?)\.\s*\n\s*Proof", src, re.S | re.M)
+    m = re.search(r"^(?:Lemma|Theorem|Corollary|Example)\s+" + re.escape(lem) + r"\s*:(.*?)\.[ \t]*(?:\(\*[^\n]*\*\))?[ \t]*\n\s*Proof", src, re.S | re.M)
     if not m:
         sys.exit("statement of %s not found in %s (binder-form lemmas are not supported)" % (lem, f))
     stmt = m.group(1).strip()
